@@ -238,3 +238,164 @@ def assembler(ctx):
     r3.check(want_t in got, "dual transformation", SPA, fs.name, fs.lineno, "sparse dual dof_transformation",
              "the dual_to_range dof transformation is not applied transposed on the left when the dual space requires it (guarded updates: %s)" % sorted(v for _, v in got))
     r3.check(len(got) == 2, "no other guarded update", SPA, fs.name, fs.lineno, "sparse matrix updates", "unexpected conditional updates of the assembled matrix: %s" % sorted(v for _, v in got))
+
+
+# ---------------------------------------------------------------- mass matrices and their (pseudo-)inverses
+
+
+def mass_matrices(ctx):
+    """get_mass_matrix / get_inverse_mass_matrix / FunctionSpace.mass_matrix / inverse_mass_matrix and the sparse
+    (pseudo-)inverse they rely on."""
+    from . import dispatch
+    from .proto import NC
+
+    HP = "bempp_cl/api/utils/helpers.py"
+    SPC = "bempp_cl/api/space/space.py"
+    DO = "bempp_cl/api/assembly/discrete_boundary_operator.py"
+    r = ctx.rule("MASS-MATRIX", "mass matrix of (domain, dual) = weak form of identity(domain, ., dual); the inverse mass matrix is the sparse inverse of exactly that matrix; equal spaces use the space's own memo", 4)
+    hm = ctx.repo.mod(HP)
+    for fname, same_want, diff_want in (
+        ("get_mass_matrix", "{D}.mass_matrix()", "identity({D}, *, {T}).weak_form()"),
+        ("get_inverse_mass_matrix", "{D}.inverse_mass_matrix()", "InverseSparseDiscreteBoundaryOperator(get_mass_matrix({D}, {T}))"),
+    ):
+        fn = hm.fn(fname)
+        defs = roles.Defs(fn)
+        D, T = arg_names(fn)[:2]
+        rets = [s for s in roles.stores(fn.body, defs, lv=False) if s.op == "return"]
+        eq = {"(%s Eq %s)" % tuple(sorted([D, T])), "(%sEq%s)" % tuple(sorted([D, T]))}
+        got = {}
+        for s in rets:
+            if len(s.guards) == 1 and s.guards[0][0].replace(" ", "") in {e.replace(" ", "") for e in eq}:
+                got[s.guards[0][1]] = s.value
+            elif not s.guards:
+                got.setdefault(False, s.value)
+        ws = same_want.format(D=D, T=T).replace(" ", "")
+        wd = diff_want.format(D=D, T=T).replace(" ", "")
+        ok = got.get(True) == ws and got.get(False) is not None and roles.match(wd, got[False])
+        r.check(ok, fname, HP, fname, fn.lineno, "%s paths %s" % (fname, got), "equal spaces -> `%s` (expected %s); different spaces -> `%s` (expected %s)" % (got.get(True), ws, got.get(False), wd))
+    sm = ctx.repo.mod(SPC)
+    from . import fx
+
+    for meth, slot, init in (("mass_matrix", "self._mass_matrix", "identity(self,self,self).weak_form()"), ("inverse_mass_matrix", "self._inverse_mass_matrix", "InverseSparseDiscreteBoundaryOperator(self.mass_matrix())")):
+        fn = sm.fn("FunctionSpace." + meth)
+        why = fx._memo_shape(fn, slot, init)
+        r.check(why is None, "FunctionSpace." + meth, SPC, "FunctionSpace." + meth, fn.lineno, "space %s memo" % meth, "%s: %s" % (meth, why))
+    # the sparse pseudo-inverse
+    r2 = ctx.rule("PSEUDO-INVERSE", "_Solver: square -> A^-1 x; thin -> (A^H A)^-1 A^H x; thick -> A^H (A A^H)^-1 x; real operator on complex data by parts; shape is the transposed shape", 5)
+    dm = ctx.repo.mod(DO)
+    init = dm.fn("_Solver.__init__")
+    d = roles.Defs(init)
+    S = roles.stores(init.body, d, lv=False)
+    MAT = None
+    for s in S:
+        if s.op == "=" and isinstance(s.tnode, ast.Name) and s.value.endswith(".to_sparse()") and s.guards and "isinstance" in s.guards[-1][0]:
+            MAT = s.tnode.id
+    if MAT is None:
+        raise AnalysisError("_Solver.__init__: the sparse matrix variable was not found")
+    A_, AH, x = NC.op("A"), NC.op("AH"), NC.op("x")
+    branches = {}
+    for s in S:
+        if s.target == "self._solve_fun" and s.guards and isinstance(s.vnode, (ast.Lambda, ast.Attribute)):
+            branches[s.guards] = s
+    sq = "(%s.shape[0] Eq %s.shape[1])" % (MAT, MAT)
+    found = {}
+    for gs, s in branches.items():
+        key = None
+        g = [(t.replace(" ", ""), b) for t, b in gs]
+        if g[-1] == (sq.replace(" ", ""), True):
+            key = "square"
+        elif g[-1][0] == ("(%s.shape[0] Gt %s.shape[1])" % (MAT, MAT)).replace(" ", "") and g[-1][1] is True:
+            key = "thin"
+        elif g[-1][0] == ("(%s.shape[0] Gt %s.shape[1])" % (MAT, MAT)).replace(" ", "") and g[-1][1] is False:
+            key = "thick"
+        if key:
+            found[key] = s
+    def solver_of(name, line):
+        """NC letter of the factorised matrix behind `name`: Inv[<canonical product>]."""
+        cands = [s for s in S if s.op == "=" and isinstance(s.tnode, ast.Name) and s.tnode.id == name and isinstance(s.vnode, ast.Call) and unparse(s.vnode.func) == "solver_interface"]
+        out = []
+        for c in cands:
+            arg = c.vnode.args[0]
+            # strip .tocsr()/.tocsc()
+            while isinstance(arg, ast.Call) and isinstance(arg.func, ast.Attribute) and arg.func.attr in ("tocsr", "tocsc") and not arg.args:
+                arg = arg.func.value
+            out.append((c.guards[:-1] if len(c.guards) > 1 and "use_mkl_pardiso" in c.guards[-1][0] else c.guards, _nc_mat(arg, d, MAT, A_, AH)))
+        return out
+
+    want = {"square": lambda inv: inv == A_, "thin": lambda inv: inv == AH * A_, "thick": lambda inv: inv == A_ * AH}
+    for key in ("square", "thin", "thick"):
+        s = found.get(key)
+        ok, why = False, "branch not found"
+        if s is not None:
+            if key == "square":
+                ok = isinstance(s.vnode, ast.Attribute) and s.vnode.attr == "solve" and isinstance(s.vnode.value, ast.Name) and all(want[key](m_) for g_, m_ in solver_of(s.vnode.value.id, s.node.lineno) if g_ == s.guards) \
+                    and bool([1 for g_, m_ in solver_of(s.vnode.value.id, s.node.lineno) if g_ == s.guards])
+                why = "square case does not return the solve method of the factorised matrix itself"
+            else:
+                lam = s.vnode
+                body = lam.body if isinstance(lam, ast.Lambda) else None
+                arg = lam.args.args[0].arg if body is not None else None
+                shape_ok = False
+                if key == "thin" and isinstance(body, ast.Call) and isinstance(body.func, ast.Attribute) and body.func.attr == "solve" and isinstance(body.func.value, ast.Name):
+                    invs = [m_ for g_, m_ in solver_of(body.func.value.id, s.node.lineno) if g_[:len(s.guards)] == s.guards]
+                    inner = _nc_mat(body.args[0], d, MAT, A_, AH, {arg: x})
+                    shape_ok = bool(invs) and all(want[key](m_) for m_ in invs) and inner == AH * x
+                if key == "thick" and isinstance(body, ast.BinOp) and isinstance(body.op, (ast.Mult, ast.MatMult)) and isinstance(body.right, ast.Call) and isinstance(body.right.func, ast.Attribute) \
+                        and body.right.func.attr == "solve" and isinstance(body.right.func.value, ast.Name):
+                    invs = [m_ for g_, m_ in solver_of(body.right.func.value.id, s.node.lineno) if g_[:len(s.guards)] == s.guards]
+                    left = _nc_mat(body.left, d, MAT, A_, AH)
+                    rhs = _nc_mat(body.right.args[0], d, MAT, A_, AH, {arg: x})
+                    shape_ok = bool(invs) and all(want[key](m_) for m_ in invs) and left == AH and rhs == x
+                ok = shape_ok
+                why = "%s case is `%s`" % (key, unparse(lam)[:90])
+        r2.check(ok, "_Solver " + key, DO, "_Solver.__init__", s.node.lineno if s is not None else init.lineno, "pseudo-inverse %s case" % key, why)
+    shp = [s for s in S if s.target == "self._shape"]
+    r2.check(len(shp) == 1 and shp[0].value == "(%s.shape[1],%s.shape[0])" % (MAT, MAT), "_Solver shape", DO, "_Solver.__init__", init.lineno, "pseudo-inverse shape", "shape is `%s`" % (shp[0].value if shp else None))
+    sol = dm.fn("_Solver.solve")
+    ds = roles.Defs(sol)
+    rhs = arg_names(sol)[1]
+    rs = [s for s in roles.stores(sol.body, ds, lv=False) if s.op == "return"]
+    re, im, F = NC.op("Re"), NC.op("Im"), NC.op("F")
+    from .proto import NCEval
+
+    oks = bool(rs)
+    for s in rs:
+        leaves = {"_np.real(%s)" % rhs: re, "_np.imag(%s)" % rhs: im, rhs: re + NC.scalar("i") * im, "self": F}
+        try:
+            got = NCEval(leaves, morphisms=("solve", "_solve_fun")).ev(s.vnode)
+            oks = oks and got == F * (re + NC.scalar("i") * im)
+        except AnalysisError:
+            oks = False
+    r2.check(oks, "_Solver.solve complex split", DO, "_Solver.solve", sol.lineno, "pseudo-inverse complex split", "some return path of solve is not F(Re x) + i F(Im x) = F x")
+
+
+def _nc_mat(node, defs, MAT, A_, AH, extra=None):
+    """NC term of a small matrix expression over the sparse matrix MAT and its conjugate transpose."""
+    from .proto import NC
+
+    extra = extra or {}
+    if isinstance(node, ast.Name):
+        if node.id in extra:
+            return extra[node.id]
+        if node.id == MAT:
+            return A_
+        dd = defs.lookup(node.id, getattr(node, "lineno", None))
+        if dd is None:
+            # names defined in both the try and the except branch (actual_mat): follow every definition, they must agree
+            vals = {repr(_nc_mat(rec[1], defs, MAT, A_, AH, extra)) for _, _, rec in defs.all.get(node.id, []) if rec[0] == "expr"}
+            if len(vals) == 1:
+                return _nc_mat([rec[1] for _, _, rec in defs.all[node.id] if rec[0] == "expr"][0], defs, MAT, A_, AH, extra)
+            raise AnalysisError("_Solver: cannot resolve `%s`" % node.id)
+        if dd[0] == "expr":
+            return _nc_mat(dd[1], defs, MAT, A_, AH, extra)
+    if isinstance(node, ast.Call) and isinstance(node.func, ast.Attribute) and not node.args:
+        inner = node.func.value
+        if node.func.attr in ("tocsr", "tocsc"):
+            return _nc_mat(inner, defs, MAT, A_, AH, extra)
+        if node.func.attr == "transpose" and isinstance(inner, ast.Call) and isinstance(inner.func, ast.Attribute) and inner.func.attr in ("conjugate", "conj") and _nc_mat(inner.func.value, defs, MAT, A_, AH, extra) == A_:
+            return AH
+        if node.func.attr in ("conjugate", "conj") and isinstance(inner, ast.Call) and isinstance(inner.func, ast.Attribute) and inner.func.attr == "transpose" and _nc_mat(inner.func.value, defs, MAT, A_, AH, extra) == A_:
+            return AH
+    if isinstance(node, ast.BinOp) and isinstance(node.op, (ast.Mult, ast.MatMult)):
+        return _nc_mat(node.left, defs, MAT, A_, AH, extra) * _nc_mat(node.right, defs, MAT, A_, AH, extra)
+    raise AnalysisError("_Solver: expression outside the matrix-term subset: %s" % unparse(node)[:60])
